@@ -91,6 +91,18 @@ def run_bounded(script, prop, tier, seed, extra=(), timeout=3600):
     return r
 
 
+def replay_counter_model(path, timeout=300):
+    """run bounded/replay.py on a replay file under the repository's interpreter; exit 1 = violation reproduced"""
+    env = dict(os.environ)
+    env["PYTHONPATH"] = REPO + os.pathsep + ROOT
+    env["PYTHONWARNINGS"] = "ignore"
+    try:
+        p = subprocess.run([VENV_PY, os.path.join(ROOT, "bounded", "replay.py"), path], cwd=REPO, env=env, capture_output=True, text=True, timeout=timeout)
+        return p.returncode, (p.stdout + p.stderr)
+    except subprocess.TimeoutExpired:
+        return 124, "replay timed out"
+
+
 # ------------------------------------------------------------------------------------------- known findings
 def load_known(prop):
     path = os.path.join(ROOT, "known_findings.jsonl")
@@ -189,7 +201,8 @@ class Check:
                         continue
                     obligations += 1
                     self.violations.append({"sig": sig, "kind": "obligation", "unit": u["unit"], "detail": ob,
-                                            "replay": ob.get("replay")})
+                                            "replay": ({"module": "bounded.cex", "prop": self.prop, "case": ob["replay"]}
+                                                       if ob.get("replay") else None)})
                 else:
                     obligations += 1
                     self.undecided.append({"unit": u["unit"], "obligation": sig, "reason": f"solver: {st}"})
@@ -238,6 +251,18 @@ class Check:
                        "replay": _jsonable(v.get("replay")),
                        "how_to_rerun": f"python3-vt check.py {self.prop} --replay {fn}"}
             json.dump(payload, open(fn, "w"), indent=1, default=str)
+            if v["kind"] == "obligation" and v.get("replay"):
+                # replay the verifier's counter-model against the real code before claiming a concrete input
+                json.dump(payload, open(fn, "w"), indent=1, default=str)
+                rc, out = replay_counter_model(fn)
+                payload["counter_model_replay"] = {"exit": rc, "output": out[-1500:]}
+                if rc != 1:
+                    payload["replay"] = None
+                    payload["counter_model_input"] = _jsonable(v.get("replay"))
+                    payload["note"] = ("the counter-model of the obligation did not reproduce on the real code (it may live in an abstracted callee); "
+                                       "the obligation still fails: no-failing-input-found")
+                    v = dict(v, replay=None)
+                json.dump(payload, open(fn, "w"), indent=1, default=str)
             has_input = bool(v.get("replay"))
             lines.append(f"VIOLATION property={self.prop} replay={fn}" + ("" if has_input else " no-failing-input-found"))
             exit_code = 1
